@@ -7,11 +7,15 @@ Open Scope string_scope.
 
 (* (object file, symbol, size in bytes) of every object in a writable section *)
 Definition statics : list (string * string * N) := [
+  ("archive_version_details.c", "init", 4%N);
+  ("archive_version_details.c", "mtx", 40%N);
   ("archive_version_details.c", "str", 24%N)
 ].
 
 (* section each of them lives in (same order) *)
 Definition statics_sections : list string := [
+  ".bss.init.1";
+  ".bss.mtx.2";
   ".bss.str.0"
 ].
 
